@@ -77,6 +77,7 @@ func runCase(r *hx.Run, sub uint64, rng *hx.Rng, keys []string, rounds int) {
 	var alphabet []string
 	alphabet = append(alphabet, keys...)
 	contended := false
+	committed := false // a Commit returned before the current round
 	for round := 0; round < rounds; round++ {
 		hot := fmt.Sprintf("68%04x%02x", round, rng.Intn(256)) // a key nobody has used yet
 		alphabet = append(alphabet, hot)
@@ -106,8 +107,10 @@ func runCase(r *hx.Run, sub uint64, rng *hx.Rng, keys []string, rounds int) {
 					sc = append(sc, call{kind: "has", key: k})
 				case x < 91:
 					sc = append(sc, call{kind: "size"})
-				case x < 94:
+				case x < 93:
 					sc = append(sc, call{kind: "root"})
+				case x < 94:
+					sc = append(sc, call{kind: "restored"})
 				case x < 97:
 					sc = append(sc, call{kind: "stream"})
 				default:
@@ -162,6 +165,9 @@ func runCase(r *hx.Run, sub uint64, rng *hx.Rng, keys []string, rounds int) {
 							o.size = m.Size()
 						case "root":
 							_ = m.Root()
+						case "restored":
+							// takes no lock of the map (the root cell has its own)
+							o.found = m.WasRestoredFromStorage()
 						case "stream":
 							seen := map[string]bool{}
 							if err := m.Stream(func(k hkey, _ hval) error {
@@ -188,6 +194,37 @@ func runCase(r *hx.Run, sub uint64, rng *hx.Rng, keys []string, rounds int) {
 		}
 		start.Done()
 		done.Wait()
+		// WasRestoredFromStorage: true exactly when a Commit happened before — decided for calls that are ordered
+		// with respect to every Commit (all Commits of earlier rounds returned before the round started)
+		commitsNow := 0
+		for g := range results {
+			for _, o := range results[g] {
+				if o.kind == "commit" && o.err == "" {
+					commitsNow++
+				}
+			}
+		}
+		for g := range results {
+			for _, o := range results[g] {
+				if o.kind != "restored" || o.err != "" {
+					continue
+				}
+				if committed && !o.found {
+					fail(r, "restored-iff-committed-concurrent", fmt.Sprintf("round %d: WasRestoredFromStorage() = false after a Commit of an earlier round", round))
+				}
+				if !committed && commitsNow == 0 && o.found {
+					fail(r, "restored-iff-committed-concurrent", fmt.Sprintf("round %d: WasRestoredFromStorage() = true, no Commit was ever called", round))
+				}
+			}
+		}
+		committed = committed || commitsNow > 0
+		if p := hx.Safely(func() {
+			if b := m.WasRestoredFromStorage(); b != committed {
+				fail(r, "restored-iff-committed-concurrent", fmt.Sprintf("round %d: at quiescence WasRestoredFromStorage() = %v, a Commit returned before: %v", round, b, committed))
+			}
+		}); p != "" {
+			fail(r, "no-error", "panic in WasRestoredFromStorage: "+p)
+		}
 		// quiescent observation
 		size := 0
 		var stream []string
@@ -259,6 +296,7 @@ func runCase(r *hx.Run, sub uint64, rng *hx.Rng, keys []string, rounds int) {
 						fail(r, "reopen-faithful-at-quiescence", fmt.Sprintf("round %d: an instance opened after Commit holds %x=%x (exists=%v, %v), the live map %x", round, k, v, ok, err, w))
 					}
 				}
+				committed = true
 				r.Count("probe-after-commit-at-quiescence")
 			}
 		}); p != "" {
